@@ -6,6 +6,7 @@
 mod astjson;
 mod bind;
 mod checks;
+mod e1;
 mod env;
 mod ev;
 mod fam;
@@ -57,9 +58,14 @@ fn main() {
         std::process::exit(2);
     }
     let j = ctx.to_json(t0.elapsed().as_secs_f64());
+    let machinery = ctx.info.lock().unwrap().get("machinery_error").cloned();
     let text = serde_json::to_string_pretty(&j).unwrap();
     match out {
         Some(p) => std::fs::write(&p, text).expect("write part file"),
         None => println!("{text}"),
+    }
+    if let Some(m) = machinery {
+        eprintln!("MACHINERY: {m}");
+        std::process::exit(2);
     }
 }
